@@ -341,6 +341,9 @@ def run(M, c):
         backend_eq(M, a, b, kind + ":pendulum-operands")
         backend_eq(M, n1, b, kind + ":native+pendulum")
         backend_eq(M, b, n1, kind + ":pendulum+native:rev")
+    hist = isinstance(a, dt.datetime) and a.tzinfo is not None and (c.get("ua", 0) + c.get("ub", 0)) % 4 == 0
+    if hist and (c.get("ua", 0) // 4) % 2 == 0:
+        _same_instants_elsewhere(M, a, b)      # history: the same two instants decomposed in another zone first ...
     try:
         iv = b - a           # Interval.__init__ contract judges ranges + model rebuild
         rv = a - b
@@ -360,6 +363,8 @@ def run(M, c):
                         pendulum=comps(iv), native=comps(v))
         except (OverflowError, ValueError):
             pass
+    if hist and (c.get("ua", 0) // 4) % 2 == 1:
+        _same_instants_elsewhere(M, a, b)      # ... or afterwards (each interval is judged on its own by the contract)
     dom = in_domain(a, b) if kind != "diffzone" else None
     arm, borrow = arm_of(a, b) if dom else ("-", 0)
     if dom and arm != "nonneg":
@@ -392,6 +397,28 @@ def run(M, c):
         big = ":span>=2^33s" if abs(ub - ua) >= 2**33 * US else ""
         M.check("utc_decomposition", not bad, f"C06/utc-decomposition:{'+'.join(bad)}:arm-{arm2}{big}",
                 "different-zone endpoints are not decomposed as their UTC instants", a=_dsc(a), b=_dsc(b), comps=ci)
+
+
+def _same_instants_elsewhere(M, a, b):
+    """the two instants of (a, b) expressed in UTC and in far fixed offsets (their calendar dates differ from the local ones):
+    equal as datetimes, different as wall clocks - built and decomposed in the same process"""
+    P = M.pendulum
+    M.quiet += 1
+    try:
+        twins = []
+        for tz in (P.UTC, P.tz.timezone.FixedTimezone(14 * 3600), P.tz.timezone.FixedTimezone(-11 * 3600)):
+            try:
+                twins.append((a.in_tz(tz), b.in_tz(tz)))
+            except (OverflowError, ValueError):
+                pass
+    finally:
+        M.quiet -= 1
+    for a2, b2 in twins:
+        try:
+            b2 - a2          # contract judges
+            a2 - b2
+        except OverflowError:
+            pass
 
 
 def _dsc(x):
